@@ -8,4 +8,5 @@ CONSTANTS
   MaxDev = 2
   Extra <- MCExtra
 INVARIANTS TypeOK RunIsSupported ReasonIffRefused KeysDisjoint
+  SpellingIrrelevant
 CHECK_DEADLOCK FALSE
